@@ -30,6 +30,7 @@ class Env:
         s.I = I
         s.F = {}
         s.mode = {}          # per id: 'fresh' => body returns a fresh value on every execution (impure body)
+        s.strcap_max = 2 ** 36
         s.gate = None        # callable(ctx, gate_id) -> True (Ready) / False (Pending)
         I.env = {'body': s.body, 'body2': s.body, 'body3': s.body, 'body_any': s.body_any, 'body_res': s.body_res, 'body_str': s.body_str,
                  'pred': s.pred, 'pred_res': s.pred, 'stale': s.stale, 'gate': s.gate_new, 'Gate::poll': s.gate_poll, 'f_default': s.fdef, 'with': s.unsup}
@@ -58,7 +59,7 @@ class Env:
         return r
     def body_str(s, ctx, A):
         sid = A[0]; args = s._args(A)
-        v = Str(ctx.fresh_int(f'strval{sid}', 0, 2 ** 62)); v.cap = ctx.fresh_int(f'strcap{sid}', 0, 2 ** 36)
+        v = Str(ctx.fresh_int(f'strval{sid}', 0, 2 ** 62)); v.cap = ctx.fresh_int(f'strcap{sid}', 0, s.strcap_max)
         ctx.events.append(('exec', ctx.tid, sid, tuple(args), v)); return v
     def pred(s, ctx, A):
         b = ctx.fresh_bool(f'pred{A[0]}')
